@@ -91,7 +91,8 @@ class Evaluator:
             vals = [self.ev(a, depth + 1) for a in t[1]]
             if vals and all(v is not None and v == vals[0] for v in vals):
                 return vals[0]
-            return None
+            if self.bool_atom is None or self.bool_atom(t) is None:     # the merged value itself may be what an assumption is about
+                return None
         if k == 'cast':
             return self.ev(t[2], depth + 1)
         if self.bool_atom is not None:
